@@ -744,7 +744,20 @@ pub fn worker_main() {
             let all = dims(&p);
             let part = task["part"].as_u64().unwrap() as usize;
             let parts = task["parts"].as_u64().unwrap() as usize;
-            let mine: Vec<Dim> = all.iter().enumerate().filter(|(k, _)| k % parts == part).map(|(_, d)| d.clone()).collect();
+            // the ordinary product is dealt out over the workers; the limit-sized and over-limit
+            // bodies all go to one process, twice, followed by ordinary uploads - whatever a
+            // refused upload leaves behind in the process (a budget, a buffer) adds up there
+            let (big, small): (Vec<Dim>, Vec<Dim>) = all.iter().cloned().partition(|d| d.body.is_big());
+            let mut mine: Vec<Dim> = small.iter().enumerate().filter(|(k, _)| k % parts == part).map(|(_, d)| d.clone()).collect();
+            if part == 0 && !big.is_empty() {
+                mine.extend(big.iter().cloned());
+                mine.extend(big.iter().cloned());
+                for route in [Route::AddVersion, Route::AddSnapshot] {
+                    for body in [BodyForm::One, BodyForm::Multi] {
+                        mine.push(Dim { route, method: "POST", cid: CidForm::Known, pid: PidForm::Latest, ct: CtForm::Right, body, extra: Extra::None });
+                    }
+                }
+            }
             let r = std::panic::catch_unwind(std::panic::AssertUnwindSafe(|| run_grammar(&p, &mine, task["empty"].as_bool().unwrap_or(false))));
             match r {
                 Ok((st, f, samples)) => json!({
